@@ -17,14 +17,16 @@ META["text"] = (
     "Proved in Coq about Model/Deriv.v: (C25_linear_terms, over R, all inputs) for dof damping with zero polynomial coefficients, tendon damping through an arbitrary Jacobian row J and actuators with affine gain and bias through an arbitrary moment row J, "
     "the generalized force is affine in qvel and its exact secant slope for EVERY perturbation w equals what the analytic code adds to qDeriv (-damping on the diagonal; J^T B J with B = -mjd_xPolyForce; J^T (biasprm[2] + gainprm[2]*input) J as computed by mjd_actuator_vel); "
     "(C25_poly_damping_partial, over R, Coquelicot) for the general polynomial damping loops mju_polyForce / mjd_xPolyForce with any number of coefficients and v <> 0, the slope mjd_passive_vel puts on the diagonal is the derivative of the dof damping force -v*polyForce(b, poly, |v|) (v = 0 and the tendon composition are not covered); "
+    "(C25_clamped_diff, over R) every branch of clampedDiff (forward, backward, centred) returns the exact slope of an output that is affine in the perturbed variable and zeros when no direction is given; the control loop of mjd_stepFD (nudge_fwd / nudge_back chosen with inRange as written, any flg_centered, limited or not, control inside / at the edge of / outside ctrlrange, any eps > 0) applied to an output affine in the clamped control returns the exact slope whenever a nudge is allowed and zero otherwise, and allowed nudges stay inside the range; "
     "(C25_fd_restores, all tables/evaluations) the save / nudge / mj_stepSkip / mj_setState skeleton of mjd_stepFD (which mjd_transitionFD wraps), for every table of state elements with distinct fields (C26), every restore signature the state API accepts, every list of perturbed evaluations and "
     "whatever the evaluations do to mjData (keeping array sizes): no state-API error and every component of the restore signature ends with its initial contents (proved from C26_set_get); C25_restore_spec_resolves / C25_fd_restores_mjdata: on the state table regenerated from the working tree, for every model and both restore signatures of mjd_stepFD (mjSTATE_FULLPHYSICS|mjSTATE_CTRL with and without mjSTATE_WARMSTART; the numeric values are compared with the header on every run) the fields time, qpos, qvel, act, ctrl, plugin_state (and qacc_warmstart) end with their initial contents; "
     "(C25_fd_restores_inverse_partial) the save-entry / nudge / inverse / restore-entry skeleton of mjd_inverseFD leaves qpos, qvel, qacc unchanged PROVIDED the inverse-dynamics call does not write those fields (premise). "
     "NOT proved (oracle only, on implementation output): the numerical agreement itself. qDeriv of mjd_smooth_vel (dense-ified) is compared with own centred finite differences of qfrc_actuator + qfrc_passive - qfrc_bias w.r.t. qvel (1e-5 scaled) on mjgen models with damping, springs, tendons, "
     "every mjgen actuator kind plus damper, cylinder, intvelocity, muscle, DC-motor and PID actuators, inertia-box and ellipsoid fluid forces, all four integrator settings (under implicitfast, which symmetrizes the fluid blocks by design, the symmetric parts are compared); mjd_transitionFD forward vs centred (5e-5 scaled, smooth models only), mjd_transitionFD centred vs own centred differences of mj_step (1e-5 scaled), "
+    "the sensor Jacobians C (centred) and D (forward and centred) vs own centred differences of mj_step + sensordata (actuatorfrc / jointactuatorfrc sensors on every actuator; 1e-5 scaled), the D entry of a one-actuator model with the control inside / exactly at / within eps of / outside ctrlrange and ranges narrower than eps against the documented one-sided behaviour, the static clampedDiff on random vectors for the four pointer patterns; "
     "mjd_inverseFD DfDv/DfDa vs own centred differences of mj_inverse (1e-4 scaled); input state before/after mjd_transitionFD and mjd_inverseFD by mj_getState(mjSTATE_INTEGRATION) memcmp plus mjcmp.h field comparison (no state field may differ; qacc for inverseFD). "
     "Not covered by any theorem: mjd_rne_vel, fluid and muscle derivatives, DC-motor / SO3 / PID terms, flex, polynomial tendon damping. "
-    "Tie: the linear-terms model (actuators with fixed/affine gain and none/affine bias incl. the forcerange skip, tendon and dof damping) is evaluated at binary64 inside Coq and compared with the dense-ified result of mjd_actuator_vel + mjd_passive_vel on the entries of the qDeriv sparsity pattern.")
+    "Tie: Model/Deriv.v clampedDiff is run at binary64 against the static clampedDiff, and ctrl_column (nudge selection + clampedDiff on the clamped control) against the D entry mjd_transitionFD returns on the one-actuator model; the linear-terms model (actuators with fixed/affine gain and none/affine bias incl. the forcerange skip, tendon and dof damping) is evaluated at binary64 inside Coq and compared with the dense-ified result of mjd_actuator_vel + mjd_passive_vel on the entries of the qDeriv sparsity pattern.")
 META["note"] = ("Trusted: Coq kernel + standard-library real-number axioms listed in trusted_base (the finite-difference theorems are closed under the global context); hand-written model Model/Deriv.v; the C26 state-API model and its generated table (Gen/StateTable.v, regenerated by C26's translator); "
                 "correspondence harness (gcc, driver c25_deriv.c, mjgen.h, mjcmp.h).")
 
@@ -122,17 +124,41 @@ def run(ctx):
               (5, ALL, 3, 3, 2, 0), (9, ALL, 4, 3, 2, 2),          # damper actuator, ctrl outside its range
               (3, ALL, 5, 2, 0, 0), (15, ALL, 5, 2, 0, 0)]         # tendons / actuators across branches
     tcases = [(8, ALL, 2, 2, 32 + 30, 3), (13, ALL, 3, 2, 32 + 30, 2), (4, ALL, 2, 2, 32, 0)]
-    ns_, nt_ = (26, 10) if quick else (260, 90)
+    ns_, nt_ = (26, 10) if quick else (600, 200)
     for k in range(ns_):
         xf = [0, 1, 2, 4, 8, 16, 63, 31][k % 8] if k < 32 else rng.randrange(64)
         feat = ALL if k % 3 else (rng.getrandbits(19) | 0x40 | 0x1000)
-        scases.append((rng.randrange(1, 10 ** 6), feat, 1 + k % 5 if k < 15 else rng.randrange(1, 8), 2 if quick else 3, xf & 31, k % 4))
+        scases.append((rng.randrange(1, 10 ** 6), feat, 1 + k % 5 if k < 15 else rng.randrange(1, 8), 2 if quick else 3, (xf & 31) | (64 if k % 5 == 4 else 0), k % 4))
     for k in range(nt_):
         smooth = 32 if k % 3 != 2 else 0
         xf = [0, 30, 2, 14][k % 4] if k < 16 else rng.randrange(32)
         integ = [0, 2, 3, 0][k % 4]          # RK4 is rejected by mjd_transitionFD
-        tcases.append((rng.randrange(1, 10 ** 6), ALL if k % 2 else (rng.getrandbits(19) | 0x40), 1 + k % 3 if quick else rng.randrange(1, 5), 2, smooth | xf, integ))
-    reqs = ["S %d %d %d %d %d %d" % c for c in scases] + ["T %d %d %d %d %d %d" % c for c in tcases]
+        tcases.append((rng.randrange(1, 10 ** 6), ALL if k % 2 else (rng.getrandbits(19) | 0x40), 1 + k % 3 if quick else rng.randrange(1, 5), 3, smooth | xf, integ))
+    # force-limited actuators with a velocity term, saturated (xflags 64): the forcerange skip of mjd_actuator_vel
+    scases += [(21, ALL, 2, 3, 64, 0), (22, ALL, 3, 3, 64 + 2, 2), (23, 0x10000 | 0x4 | 0x40, 2, 3, 64, 1)]
+    # clampedDiff kernel cases: (x_plus given, x_minus given, h, x, xp, xm)
+    cdcases = []
+    for fp in (0, 1):
+        for fm in (0, 1):
+            cdcases.append((fp, fm, 0.25, [1.0, -2.0], [1.5, -2.5], [0.5, -1.0]))
+            for _ in range(6 if quick else 60):
+                n = rng.randrange(1, 6)
+                h = rng.choice([1e-6, 1e-3, 0.5, rng.uniform(1e-7, 1.0)])
+                cdcases.append((fp, fm, h, [rng.uniform(-3, 3) for _ in range(n)], [rng.uniform(-3, 3) for _ in range(n)], [rng.uniform(-3, 3) for _ in range(n)]))
+    # control inside / at the edge of / within eps of / outside its range, limited or not, forward or centred
+    ecases = []
+    eps0 = 1e-6
+    for limited in (0, 1):
+        for centered in (0, 1):
+            for (lo, hi) in ((-1.0, 1.0), (0.0, 2.0), (0.25, 0.25 + 0.5e-6)):
+                for c in (lo + 0.37 * (hi - lo), lo, hi, lo + 0.4e-6, hi - 0.4e-6, lo - 0.1, hi + 0.1, hi + 0.4e-6, lo - 0.4e-6):
+                    ecases.append((limited, centered, c, eps0, lo, hi))
+    for _ in range(10 if quick else 150):
+        lo = rng.uniform(-2, 1); hi = lo + rng.choice([rng.uniform(0.1, 2), 1.5e-6, 0.7e-6])
+        ecases.append((rng.randrange(2), rng.randrange(2), rng.choice([lo, hi, rng.uniform(lo - 0.2, hi + 0.2), lo + rng.uniform(0, 2e-6), hi - rng.uniform(0, 2e-6)]), rng.choice([1e-6, 1e-5]), lo, hi))
+    reqs = (["S %d %d %d %d %d %d" % c for c in scases] + ["T %d %d %d %d %d %d" % c for c in tcases] +
+            ["CD %d %d %s %d %s %s %s" % (fp, fm, hx(h), len(x), " ".join(map(hx, x)), " ".join(map(hx, xp)), " ".join(map(hx, xm))) for (fp, fm, h, x, xp, xm) in cdcases] +
+            ["E %d %d %s %s %s %s" % (l, ce, hx(c), hx(e), hx(lo), hx(hi)) for (l, ce, c, e, lo, hi) in ecases])
     rc, out, err = ctx.run(exe, "\n".join(reqs) + "\n", timeout=1500)
     blocks = split_blocks(out)
     if rc != 0 or len(blocks) != len(reqs):
@@ -142,7 +168,7 @@ def run(ctx):
     stats = {"smooth_models": 0, "smooth_reps": 0, "smooth_bad_reps": 0, "compile_fail": 0, "qderiv_entries": 0, "qderiv_nonzero_entries": 0,
              "reps_with_fluid": 0, "reps_with_ctrl_out_of_range": 0, "reps_linear_model": 0, "trans_models": 0, "trans_reps": 0, "trans_bad_reps": 0,
              "fwd_vs_centred_checked": 0, "centred_vs_own_checked": 0, "inverse_checked": 0, "restore_checks": 0,
-             "F1_reps": 0, "F2_reps": 0, "F3_reps": 0, "F4_reps": 0, "worst_qderiv_err": 0.0, "worst_fwd_centred": 0.0, "worst_centred_own": 0.0, "worst_inverse": 0.0}
+             "sensor_jacobians_checked": 0, "worst_sensor_jac": 0.0, "clampeddiff_cases": 0, "edge_cases": 0, "edge_cases_one_sided": 0, "edge_cases_no_nudge": 0, "reps_saturated_actuator": 0, "F1_reps": 0, "F2_reps": 0, "F3_reps": 0, "F4_reps": 0, "worst_qderiv_err": 0.0, "worst_fwd_centred": 0.0, "worst_centred_own": 0.0, "worst_inverse": 0.0}
     gain_kinds = set()
     distinct = set()
     samples = []
@@ -177,6 +203,9 @@ def run(ctx):
                     FD = [unhx(x) for x in t[2:]]
                 elif t[0] == "QDC":
                     QDC = [unhx(x) for x in t[2:]]
+                elif t[0] == "CLAMP":
+                    if any(x == "1" for x in t[1:]):
+                        stats["reps_saturated_actuator"] += 1
                 elif t[0] == "CTRLOOR":
                     noor = int(t[1])
                 elif t[0] == "GUARD":
@@ -250,7 +279,7 @@ def run(ctx):
                 coq_meta.append(rcase)
 
     # ---------------------------------------------------------------- T blocks
-    for case, blk in zip(tcases, blocks[len(scases):]):
+    for case, blk in zip(tcases, blocks[len(scases):len(scases) + len(tcases)]):
         fail, info, reps = reps_of(blk)
         mcase = dict(zip(("seed", "feat", "nbody", "nrep", "xflags", "integrator"), case))
         if fail or not info:
@@ -285,7 +314,7 @@ def run(ctx):
                         ctx.violation("impl_violation", dict(rcase, op=d["fn"], centred=d["centred"]), expected="input state unchanged (mj_getState(mjSTATE_INTEGRATION) bitwise, no state field in the mjData comparison%s)" % (", qacc" if d["fn"] == "inverseFD" else ""),
                                       observed={"statevec_equal": d.get("statevec_equal"), "state_fields_differing": fields, "qacc_equal": d.get("qacc_equal")},
                                       theorem="C25_fd_restores" if d["fn"] == "transitionFD" else "C25_fd_restores_inverse_partial", signature={"site": "mjd_" + d["fn"], "class": "state-not-restored"})
-                elif t[0] in ("A0", "A1", "AO", "B0", "B1", "C0", "C1", "IFV", "IFVO", "IFA", "IFAO"):
+                elif t[0] in ("A0", "A1", "AO", "B0", "B1", "C0", "C1", "CO", "D0", "D1", "DO", "IFV", "IFVO", "IFA", "IFAO"):
                     M[t[0]] = [unhx(x) for x in t[2:]]
                 elif t[0] == "BO":
                     M["BO"] = [unhx(x) for x in t[3:]]
@@ -336,6 +365,17 @@ def run(ctx):
                                   expected="B equals centred differences of mj_step (1e-5 scaled)", observed="scaled difference %.3g" % e, theorem="C25 oracle (transitionFD vs mj_step)", signature=sig)
             if f4:
                 stats["F4_reps"] += 1
+            # sensor Jacobians: C (centred) and D (forward and centred) against own centred differences of mj_step + sensordata;
+            # D columns whose control cannot be nudged both ways are one-sided by design (covered by the E cases): skipped here
+            for nm, a, b, tol in (("C", "C1", "CO", 1e-5), ("D", "D1", "DO", 1e-5), ("D", "D0", "DO", 5e-5 if smooth else None)):
+                if a in M and b in M and tol is not None:
+                    stats["sensor_jacobians_checked"] += 1
+                    e, wi, _ = scaled_diff(M[a], M[b])
+                    stats["worst_sensor_jac"] = max(stats["worst_sensor_jac"], e)
+                    if e > tol:
+                        ctx.violation("impl_violation", dict(rcase, op="mjd_transitionFD", matrix=nm, centred=int(a.endswith("1")), index=wi, transitionFD=M[a][wi], direct=M[b][wi]),
+                                      expected="%s (flg_centered=%s) equals centred differences of mj_step + sensordata (%g scaled)" % (nm, a[-1], tol), observed="scaled difference %.3g" % e,
+                                      theorem="C25_clamped_diff" if nm == "D" else "C25 oracle (transitionFD vs mj_step)", signature={"site": "mjd_transitionFD", "class": "sensor-jacobian-vs-direct-perturbation", "matrix": nm, "centred": int(a.endswith("1"))})
             # inverseFD
             for nm, a, b in (("DfDv", "IFV", "IFVO"), ("DfDa", "IFA", "IFAO")):
                 if a in M and b in M:
@@ -348,6 +388,69 @@ def run(ctx):
             if len(samples) < 4 and ndx <= 8:
                 samples.append(dict(rcase, op="mjd_transitionFD", ndx=ndx, A_centred=M["A1"], A_direct=M["AO"]))
 
+    # ---------------------------------------------------------------- clampedDiff kernel and control-edge cases
+    base = len(scases) + len(tcases)
+    coq_cd, cd_meta = [], []
+    for case, blk in zip(cdcases, blocks[base:base + len(cdcases)]):
+        fp, fm, h, x, xp, xm = case
+        t = blk[0].split() if blk else ["FAIL"]
+        ccase = {"op": "clampedDiff", "x_plus_given": fp, "x_minus_given": fm, "h": h, "x": x, "x_plus": xp, "x_minus": xm}
+        if t[0] != "CD":
+            ctx.broken.append(("correspondence", "clampedDiff driver reply", " ".join(t)[:200]))
+            continue
+        stats["clampeddiff_cases"] += 1
+        outv = [unhx(v) for v in t[2:]]
+        if fp and not fm:
+            expv = [(b - a) / h for a, b in zip(x, xp)]
+        elif fm and not fp:
+            expv = [(a - b) / h for a, b in zip(x, xm)]
+        elif fp and fm:
+            expv = [(a - b) / (2 * h) for a, b in zip(xp, xm)]
+        else:
+            expv = [0.0] * len(x)
+        e, wi, _ = scaled_diff(outv, expv)
+        if int(t[1]) or len(outv) != len(expv) or e > 1e-9:
+            ctx.violation("impl_violation", ccase, expected=expv, observed=outv, theorem="C25_clamped_diff",
+                          signature={"site": "clampedDiff", "class": "forward" if fp and not fm else "backward" if fm and not fp else "centered" if fp else "none"})
+        distinct.add(("CD", fp, fm, hx(h), tuple(map(hx, x + xp + xm))))
+        coq_cd.append("(%s, %s, %s, %s, %s, %s, %s)" % ("true" if fp else "false", "true" if fm else "false", fl(h), flit(x), flit(xp), flit(xm), flit(outv)))
+        cd_meta.append(ccase)
+    imports = "From Coq Require Import ZArith PrimFloat Bool.\nFrom MJV Require Import Lib.Num Lib.NumF Model.Deriv.\n"
+    fails = ctx.coq_eval("c25_clampeddiff", imports, coq_cd, shard=max(10, (len(coq_cd) + 3) // 4), checker=
+                         "fun c : bool * bool * float * list float * list float * list float * list float => match c with (fp, fm, h, x, xp, xm, out) => fclose_list 0x1p-40 (clampedDiff (T:=float) x (if fp then Some xp else @None (list float)) (if fm then Some xm else @None (list float)) h) out end")
+    for f in fails[:3]:
+        ctx.violation("correspondence", cd_meta[f], expected="Model/Deriv.v clampedDiff", observed="static clampedDiff differs", found_input=False, theorem="correspondence c25 clampedDiff")
+
+    coq_e, e_meta = [], []
+    for case, blk in zip(ecases, blocks[base + len(cdcases):]):
+        limited, centered, c, eps, lo, hi = case
+        t = blk[0].split() if blk else ["FAIL"]
+        ecase = {"op": "mjd_transitionFD D (hinge, motor, actuatorfrc sensor)", "limited": limited, "flg_centered": centered, "ctrl": c, "eps": eps, "ctrlrange": [lo, hi]}
+        if t[0] != "E":
+            ctx.broken.append(("correspondence", "edge-case driver reply", " ".join(t)[:200]))
+            continue
+        stats["edge_cases"] += 1
+        err, Dv = int(t[1]), unhx(t[2])
+        # documented behaviour: the sensor is the clamped control (slope 1 inside the range, 0 outside); nudges never leave the
+        # range, so at an edge the one-sided slope 1 is returned, and 0 when no nudge of size eps fits
+        can_f = (not limited) or (lo <= c <= hi and lo <= c + eps <= hi)
+        can_b = (not limited) or (lo <= c - eps <= hi and lo <= c <= hi)
+        expD = 1.0 if (can_f or can_b) else 0.0
+        if can_f != can_b:
+            stats["edge_cases_one_sided"] += 1
+        if not (can_f or can_b):
+            stats["edge_cases_no_nudge"] += 1
+        if err or not (abs(Dv - expD) <= 1e-6):
+            ctx.violation("impl_violation", ecase, expected=expD, observed=("mju_error" if err else Dv), theorem="C25_clamped_diff",
+                          signature={"site": "mjd_stepFD", "class": "control-loop-DsDu", "centred": centered, "forward_possible": can_f, "backward_possible": can_b})
+        distinct.add(("E",) + tuple(hx(v) if isinstance(v, float) else v for v in case))
+        coq_e.append("(%s, %s, %s, %s, %s, %s, %s)" % ("true" if limited else "false", "true" if centered else "false", fl(c), fl(eps), fl(lo), fl(hi), fl(Dv)))
+        e_meta.append(ecase)
+    fails = ctx.coq_eval("c25_edge", imports, coq_e, shard=max(10, (len(coq_e) + 3) // 4), checker=
+                         "fun c => match c with (lim, cen, ct, eps, lo, hi, out) => fclose_list 0x1p-30 (ctrl_column (T:=float) lim cen ct eps lo hi (gclip lim lo hi (cons 1%float nil) (cons 0%float nil))) (cons out nil) end")
+    for f in fails[:3]:
+        ctx.violation("correspondence", e_meta[f], expected="Model/Deriv.v ctrl_column (nudge selection + clampedDiff)", observed="D of mjd_transitionFD differs", found_input=False, theorem="correspondence c25 control loop")
+
     # ---------------------------------------------------------------- Coq tie of the linear-terms model
     keep = sorted(rng.sample(range(len(coq_cases)), min(len(coq_cases), 40 if quick else 400)))
     coq_sel = [coq_cases[k] for k in keep]
@@ -359,7 +462,7 @@ def run(ctx):
         ctx.violation("correspondence", coq_meta[keep[f]], expected="Model/Deriv.v smooth_deriv on the qDeriv sparsity pattern", observed="mjd_actuator_vel + mjd_passive_vel differ", found_input=False,
                       theorem="correspondence c25 linear terms", note="model and implementation disagree; the finite-difference oracle decides whether the implementation output is wrong")
 
-    ctx.cov["evaluations"] = stats["smooth_reps"] + stats["trans_reps"]
+    ctx.cov["evaluations"] = stats["smooth_reps"] + stats["trans_reps"] + stats["clampeddiff_cases"] + stats["edge_cases"]
     ctx.cov["distinct_nontrivial"] = len(distinct)
     ctx.cov["rule"] = ("fixed corpus (replays of recorded findings) + generated mjgen models with extra actuators (damper, cylinder, intvelocity, muscle, DC motor, PID), fluid (inertia-box + ellipsoid), all integrators; per model 2-3 random states "
                        "(controls partly outside their ranges). A case is (model, state); non-trivial when the finite-difference derivative has a non-zero entry (S cases) or the transition matrices were produced (T cases); distinct by request and repetition")
